@@ -70,3 +70,32 @@ Print Assumptions C14_pinned_hang_refuted.
 Theorem C14_pinned_tracing_level_refuted : exists len, tracing_level false len = TLPanic.
 Proof. exact tracing_level_pinned_refuted. Qed.
 Print Assumptions C14_pinned_tracing_level_refuted.
+
+(* Machine arithmetic of the attribute-identifier counter (coq/IdCounter.v; F14): reading the legacy structure format
+   and add_attribute never panic on an identifier / counter taken from untrusted bytes; an accepted legacy structure
+   resumes above every identifier in use; the counter invariant is kept; the arithmetic first committed with the repair
+   of F2 panics on the largest usize (both sites). *)
+From CC Require IdCounter.
+Theorem C14_legacy_counter_never_panics : forall ids : list N, IdCounter.legacy_next true ids <> IdCounter.Panic.
+Proof. exact IdCounter.legacy_next_fixed_no_panic. Qed.
+Print Assumptions C14_legacy_counter_never_panics.
+Theorem C14_legacy_counter_sound :
+  forall (fx : bool) (ids : list N) (n : N), IdCounter.legacy_next fx ids = IdCounter.Val n ->
+  (n < IdCounter.W)%N /\ forall i : N, In i ids -> (i < n)%N.
+Proof. exact IdCounter.legacy_next_sound. Qed.
+Print Assumptions C14_legacy_counter_sound.
+Theorem C14_legacy_counter_refuses_iff :
+  forall ids : list N, IdCounter.legacy_next true ids = IdCounter.Refused <-> exists i : N, In i ids /\ (IdCounter.W <= i + 1)%N.
+Proof. exact IdCounter.legacy_next_fixed_refuses_iff. Qed.
+Print Assumptions C14_legacy_counter_refuses_iff.
+Theorem C14_add_attribute_counter_never_panics : forall st : list N * N, IdCounter.add_id true st <> IdCounter.Panic.
+Proof. exact IdCounter.add_id_fixed_no_panic. Qed.
+Print Assumptions C14_add_attribute_counter_never_panics.
+Theorem C14_add_attribute_counter_invariant :
+  forall (fx : bool) (st st' : list N * N), IdCounter.id_inv st -> IdCounter.add_id fx st = IdCounter.Val st' -> IdCounter.id_inv st'.
+Proof. exact IdCounter.add_id_keeps_inv. Qed.
+Print Assumptions C14_add_attribute_counter_invariant.
+Theorem C14_pinned_counter_refuted :
+  IdCounter.legacy_next false [(IdCounter.W - 1)%N] = IdCounter.Panic /\ IdCounter.add_id false ([], (IdCounter.W - 1)%N) = IdCounter.Panic.
+Proof. split; [exact IdCounter.pinned_legacy_next_refuted | exact IdCounter.pinned_add_id_refuted]. Qed.
+Print Assumptions C14_pinned_counter_refuted.
